@@ -415,9 +415,9 @@ Print Assumptions C03_statement_semantic.
 
 (* The full statement of the property is C03_statement_for of the union of the semantic faults and the rest.  For the
    10 declaration rules the single-fault variants are `declaration_fault` (end of this file), and C03_full_statement
-   declaration_fault is PROVED there (C03_full_statement_declaration).  NOT PROVED - and not defined in Coq: the
-   missing-token syntax faults; they exist as tools/splfaults.py only, where the check validates (2) for them on
-   generated programs. *)
+   declaration_fault is PROVED there (C03_full_statement_declaration).  The missing-token SYNTAX faults do not fit this
+   shape (their tokens are not `flatten` of an abstract program, their culprit is an EMPTY range): they are defined and the
+   statement is proved for them at the very end of this file (C03_syntax_statement_holds). *)
 Definition C03_full_statement (declaration_or_syntax_fault : aprog -> emsg -> nat * nat -> Prop) : Prop :=
   C03_statement_for (fun p m r => semantic_fault p m r \/ declaration_or_syntax_fault p m r).
 
